@@ -14,6 +14,7 @@ const (
 	verifTickHandlerDone
 	verifTickQueued
 	verifTickWritten
+	verifTickDispatch
 )
 
 func verifTick(which int)                    {}
